@@ -2,6 +2,7 @@ package main
 
 import (
 	"fmt"
+	"regexp"
 	"go/types"
 	"sort"
 	"strings"
@@ -190,6 +191,7 @@ type Frame struct {
 	modTargets []modTarget
 	decEntry string
 	ordinal map[ssa.Instruction]int
+	callPre *State // state just before the most recent call (at(call, e) in 'after call' ghost blocks)
 }
 
 type retEdge struct {
@@ -212,6 +214,7 @@ type VC struct {
 	unsupported []string
 	trusted  map[string]bool
 	heapSort map[string]string
+	heapElemType map[string]types.Type
 	specDecls []string
 	specDeclared bool
 	curPkg  *types.Package
@@ -233,6 +236,7 @@ type VC struct {
 	oblNames map[string]int
 	ssubSeen map[string]bool
 	smokes   []*Obligation
+	named    map[string]string
 	lineTag  []int // block index (top frame) in which each line was emitted; -1 = unconditional
 	curBlock int
 	anc      map[int]map[int]bool // block -> set of ancestor blocks (incl. itself)
@@ -312,11 +316,39 @@ func (vc *VC) oblige(name, kind string, props []string, guard, goal, src string)
 	if n := vc.oblNames[name]; n > 1 {
 		name = fmt.Sprintf("%s@%d", name, n)
 	}
-	o := &Obligation{Name: name, Func: vc.unit, Kind: kind, Props: props, Prefix: len(vc.lines), Guard: guard, Goal: goal, Src: src, vc: vc, Block: vc.curBlock}
+	qgoal := goal
+	norm := ""
+	if len(goal) > 200 && strings.Contains(goal, "(forall") {
+		norm = bvarRe.ReplaceAllString(goal, "")
+		if vc.named == nil {
+			vc.named = map[string]string{}
+		}
+		if p, ok := vc.named[norm]; ok {
+			// the same formula was established earlier (possibly on this very path): let the solver use it by name
+			qgoal = "(or " + p + " " + goal + ")"
+		}
+	}
+	o := &Obligation{Name: name, Func: vc.unit, Kind: kind, Props: props, Prefix: len(vc.lines), Guard: guard, Goal: qgoal, Src: src, vc: vc, Block: vc.curBlock}
 	vc.obls = append(vc.obls, o)
+	if norm != "" {
+		if _, ok := vc.named[norm]; !ok {
+			p := vc.fresh("P", "Bool")
+			// the declaration must be visible to every later query, not only to those that reach this block
+			vc.lineTag[len(vc.lineTag)-1] = -1
+			vc.emit("(assert (=> " + p + " " + goal + "))")
+			vc.named[norm] = p
+		}
+		vc.assumeG(guard, vc.named[norm])
+		if guard == "" || guard == "true" {
+			vc.assume(goal)
+		}
+		return o
+	}
 	vc.assumeG(guard, goal)
 	return o
 }
+
+var bvarRe = regexp.MustCompile(`![q][0-9]+`)
 
 // ---------------------------------------------------------------------------
 // heaps
@@ -346,12 +378,20 @@ func (vc *VC) heapSortOf(name string) string {
 func (vc *VC) cellHeapName(t types.Type) string {
 	n := cellHeap(t)
 	vc.declareHeap(n, func() string { return "(Array Int " + vc.S.sortOf(t) + ")" })
+	if vc.heapElemType == nil {
+		vc.heapElemType = map[string]types.Type{}
+	}
+	vc.heapElemType[n] = t
 	return n
 }
 
 func (vc *VC) arrHeapName(t types.Type) string {
 	n := arrHeap(t)
 	vc.declareHeap(n, func() string { return "(Array Int (Array Int " + vc.S.sortOf(t) + "))" })
+	if vc.heapElemType == nil {
+		vc.heapElemType = map[string]types.Type{}
+	}
+	vc.heapElemType[n] = t
 	return n
 }
 
@@ -377,6 +417,7 @@ func (vc *VC) heap(st *State, name string) string {
 	}
 	if !found {
 		vc.epochDecls = append(vc.epochDecls, decl)
+		vc.heapTypeAxiom(name, n, true)
 	}
 	st.heaps[name] = n
 	return n
@@ -390,7 +431,48 @@ func (vc *VC) setHeap(st *State, name, term string) {
 func (vc *VC) havocHeap(st *State, name string) string {
 	n := vc.fresh(name, vc.heapSort[name])
 	st.heaps[name] = n
+	vc.heapTypeAxiom(name, n, false)
 	return n
+}
+
+// heapTypeAxiom: every value stored in a heap satisfies the invariants of its Go type
+// (slice lengths are non-negative and bounded by the capacity)
+func (vc *VC) heapTypeAxiom(name, term string, prelude bool) {
+	t := vc.heapElemType[name]
+	if t == nil {
+		return
+	}
+	var sel string
+	if strings.HasPrefix(name, "A:") {
+		sel = "(select (select " + term + " r) i)"
+	} else if strings.HasPrefix(name, "H:") {
+		sel = "(select " + term + " r)"
+	} else {
+		return
+	}
+	st := &State{alloc: "0"}
+	var fs []string
+	for _, f := range vc.typeFacts(st, t, sel, 0) {
+		if strings.Contains(f, "s_len") || strings.Contains(f, "s_cap") {
+			if !strings.Contains(f, " 0)") || strings.Contains(f, "(<= 0 (s_len") {
+				fs = append(fs, f)
+			}
+		}
+	}
+	if len(fs) == 0 {
+		return
+	}
+	var ax string
+	if strings.HasPrefix(name, "A:") {
+		ax = "(assert (forall ((r Int) (i Int)) (! (and " + strings.Join(fs, " ") + ") :pattern (" + sel + "))))"
+	} else {
+		ax = "(assert (forall ((r Int)) (! (and " + strings.Join(fs, " ") + ") :pattern (" + sel + "))))"
+	}
+	if prelude {
+		vc.epochDecls = append(vc.epochDecls, ax)
+	} else {
+		vc.emit(ax)
+	}
 }
 
 // havocAll forgets every heap
